@@ -188,17 +188,23 @@ Lemma decrqss_good : good ([27; 80; 36; 113; 109] ++ ST) [ODecrqss [109]]. Proof
 Lemma decstbm_reset_good : good (CSI ++ [114]) [ODecstbm None None]. Proof. fixed. Qed.
 
 (* ---------- characters ---------- *)
+Definition char_ops (c : N) : list op :=
+  if (c =? 127) || (c =? 156) then []
+  else if is_c0 c || is_c1 c then [OExec c]
+  else [OPrint c].
+
 Lemma char_good c :
-  scalar_ok c = true -> between 127 c 159 = false -> c <> 27 ->
-  good (utf8_enc c) (if is_c0 c then [OExec c] else [OPrint c]).
+  scalar_ok c = true -> char_introducer c = false -> good (utf8_enc c) (char_ops c).
 Proof.
-  intros Hs Hc He.
-  assert (E : feed_all SGround [c] = (SGround, [if is_c0 c then TExec c else TPrint c])).
-  { cbn [feed_all]. unfold between in Hc. unfold feed, is_c1, is_c0, between. ifs; reflexivity. }
-  assert (G : good (utf8_list [c]) (interp [if is_c0 c then TExec c else TPrint c])).
+  intros Hs Hc. unfold char_introducer in Hc.
+  set (ts := if (c =? 127) || (c =? 156) then [] else if is_c0 c || is_c1 c then [TExec c] else [TPrint c]).
+  assert (E : feed_all SGround [c] = (SGround, ts)).
+  { cbn [feed_all]. unfold ts, feed, is_c1, is_c0, between. ifs; reflexivity. }
+  assert (G : good (utf8_list [c]) (interp ts)).
   { apply good_utf8; [cbn; rewrite Hs; reflexivity | exact E]. }
   unfold utf8_list in G. cbn [flat_map] in G. rewrite app_nil_r in G.
-  destruct (is_c0 c); exact G.
+  unfold char_ops, ts in *. destruct ((c =? 127) || (c =? 156)); [exact G|].
+  destruct (is_c0 c || is_c1 c); exact G.
 Qed.
 
 (* ---------- OSC: title ---------- *)
@@ -370,33 +376,25 @@ Proof.
 Qed.
 
 Lemma termcap_good names :
-  forallb (forallb byte_ok) names = true -> names <> [[]] ->
-  good ([27; 80; 43; 113] ++ join 59 (map hexs names) ++ ST) [OXtgettcap names].
+  forallb (forallb byte_ok) names = true ->
+  good ([27; 80; 43; 113] ++ join 59 (map hexs names) ++ ST)
+       [OXtgettcap (match names with [] => [[]] | _ => names end)].
 Proof.
-  intros Hb Hne. pose proof (names_forall names Hb) as Hn.
+  intros Hb. pose proof (names_forall names Hb) as Hn.
   set (d := join 59 (map hexs names)).
   assert (Hd : Forall (fun x => 48 <= x <= 102) d).
   { apply join_range; [lia|]. apply Forall_forall. intros x Hx. apply in_map_iff in Hx.
     destruct Hx as (n & <- & Hin). rewrite Forall_forall in Hn.
     eapply Forall_impl; [|apply hexs_range, Hn, Hin]. intros a Ha. cbn beta in Ha. lia. }
-  assert (E : interp [TDcs [] [43] 113 d; TEsc [] 92] = [OXtgettcap names]).
+  assert (E : interp [TDcs [] [43] 113 d; TEsc [] 92] = [OXtgettcap (match names with [] => [[]] | _ => names end)]).
   { cbn [interp flat_map interp_token app interp_dcs].
-    assert (Hseq : sequence (map unhex (split 59 d)) = Some names \/ (names = [] /\ d = [])).
-    { destruct names as [|n0 ns]; [right; split; reflexivity|]. left. unfold d.
-      rewrite split_join.
-      - rewrite map_map. rewrite (sequence_map_some _ (fun n => n)); [rewrite map_id; reflexivity|].
-        intros n Hin. rewrite Forall_forall in Hn. apply unhex_hex2, Hn, Hin.
-      - discriminate.
-      - apply Forall_forall. intros x Hx. apply in_map_iff in Hx. destruct Hx as (n & <- & Hin).
-        rewrite Forall_forall in Hn. apply hex2_no_sep; [apply Hn, Hin | lia]. }
-    destruct Hseq as [Hseq|[-> ->]]; [|reflexivity].
-    destruct d as [|d0 dr] eqn:Ed; [|rewrite Hseq; reflexivity].
-    (* d = [] although names <> []: only for names = [[]] *)
-    exfalso. unfold d in Ed. destruct names as [|n0 [|n1 ns]].
-    - cbn in Hseq. discriminate.
-    - cbn [map join] in Ed. destruct n0; [congruence|]. unfold hexs in Ed. cbn in Ed. discriminate.
-    - change (join 59 (map hexs (n0 :: n1 :: ns))) with (hexs n0 ++ 59 :: join 59 (map hexs (n1 :: ns))) in Ed.
-      destruct (hexs n0); discriminate. }
+    destruct names as [|n0 ns]; [reflexivity|]. unfold d.
+    rewrite split_join.
+    - rewrite map_map. rewrite (sequence_map_some _ (fun n => n)); [rewrite map_id; reflexivity|].
+      intros n Hin. rewrite Forall_forall in Hn. apply unhex_hex2, Hn, Hin.
+    - discriminate.
+    - apply Forall_forall. intros x Hx. apply in_map_iff in Hx. destruct Hx as (n & <- & Hin).
+      rewrite Forall_forall in Hn. apply hex2_no_sep; [apply Hn, Hin | lia]. }
   rewrite <- E.
   change ([27; 80; 43; 113] ++ d ++ ST) with (27 :: 80 :: 43 :: 113 :: d ++ [27; 92]).
   apply good_ascii.
